@@ -62,11 +62,12 @@ abbrev R (α : Type) := Except PyExc α
 
 /-! ## Type descriptors -/
 
-/-- Field types accepted by `_check_config_struct_type` (typed aggregates only; see the
-"modelled, not verified" list for bare `list`/`dict`/`List`/`Tuple`/`Dict`). A struct field is
-`(name, type, default?)`; the default is the *value* of `f.default` / `f.default_factory()`. -/
+/-- Field types accepted by `_check_config_struct_type`. `listAny`/`tupleAny`/`dictAny` are the untyped
+aggregates (`list`/`List`, `Tuple`, `dict`/`Dict`: the container is checked, its content is not). A struct
+field is `(name, type, default?)`; the default is the *value* of `f.default` / `f.default_factory()`. -/
 inductive Ty where
   | int | float | str | bool | any
+  | listAny | tupleAny | dictAny
   | opt (t : Ty)
   | list (t : Ty)
   | tupleVar (t : Ty)
@@ -284,6 +285,22 @@ def parseValue : Ty → PV → Path → R PV
   | .bool, v, p =>
     match v with
     | .bool b => .ok (.bool b)
+    | _ => mismatch p
+  -- untyped `list` / `List`: `isinstance(val, list)` → the value itself
+  | .listAny, v, p =>
+    match v with
+    | .list xs => .ok (.list xs)
+    | _ => mismatch p
+  -- untyped `Tuple`: a tuple passes, a list becomes `tuple(val)` (elements untouched)
+  | .tupleAny, v, p =>
+    match v with
+    | .tuple xs => .ok (.tuple xs)
+    | .list xs => .ok (.tuple xs)
+    | _ => mismatch p
+  -- untyped `dict` / `Dict`: `isinstance(val, dict)` → the value itself
+  | .dictAny, v, p =>
+    match v with
+    | .dict kvs => .ok (.dict kvs)
     | _ => mismatch p
   -- `List[T]`
   | .list t, v, p =>
